@@ -146,16 +146,27 @@ UNARY = {"reshape": ALL3, "transpose": ALL3, "moveaxis": NP2, "expand_dims": NP2
 QUICK = {"reshape": 120, "repeat": 100, "tile": 80, "diagonal": 80, "moveaxis": 60, "transpose": 60, "split": 80, "array_split": 80}
 
 
-def gen_unary(fn):
+def empty(res):
+    """some array numpy returns has size 0"""
+    return any(numpy.size(a) == 0 for a in (res if isinstance(res, (list, tuple)) else [res]))
+
+
+def gen_unary(fn, part):
+    """part 'elements': operand and numpy's result(s) all non-empty (repeat: explicit axis); 'size0': an extent 0 in the operand or in a
+    result; 'default_axis' (repeat only): axis argument omitted, nothing empty"""
     def gen(tier, rng):
         space = []
         for s in SHAPES + ZSHAPES:
             for pos, kw in cands(fn, s):
                 try:
-                    call("method" if UNARY[fn] == ("method",) else "numpy", fn, numpy.empty(s, dtype=object), pos, kw)
-                    space.append((s, pos, kw))
+                    res = call("method" if UNARY[fn] == ("method",) else "numpy", fn, numpy.empty(s, dtype=object), pos, kw)
                 except Exception:
-                    pass                          # numpy rejects these arguments for this shape
+                    continue                      # numpy rejects these arguments for this shape
+                kind = "size0" if 0 in s or empty(res) else "elements"
+                if fn == "repeat" and "axis" not in kw:
+                    kind = "default_axis" if kind == "elements" else None
+                if kind == part:
+                    space.append((s, pos, kw))
         if tier != "thorough":
             space = rng.sample(space, min(len(space), QUICK.get(fn, 40)))
         for s, pos, kw in space:
@@ -175,11 +186,15 @@ def unary(inp):
     return ok(r, want, x.names, x.dtype) or unchanged(before, x)
 
 
+PARTS = {"elements": "operand and every array numpy returns are non-empty", "size0": "ONLY the cases with an extent 0: operand of one of 7 shapes "
+         "with an extent 0, or some array numpy returns has size 0 (repeats/reps 0, empty sections, diagonals off the matrix)",
+         "default_axis": "ONLY calls without an axis argument (numpy: repeat over the flattened array), nothing empty"}
 for _fn, _vias in UNARY.items():
-    check("C09", f"{_fn}.elements", gen_unary(_fn), functions=(f"numpoly.{_fn}",) if "numpoly" in _vias else ("numpoly.ndpoly",),
-          note=BOUNDS + f"plus 7 shapes with an extent 0; every argument list numpy accepts from a fixed grid (all axes, orders, permutations, "
-          f"sections/indices, offsets and k in -3..3, repeats/reps 0..3, scalar or per-element); spellings {'/'.join(_vias)}; thorough tier "
-          f"exhaustive over shape x arguments")(unary)
+    for _part in ("elements", "size0") + (("default_axis",) if _fn == "repeat" else ()):
+        check("C09", f"{_fn}.{_part}", gen_unary(_fn, _part), functions=(f"numpoly.{_fn}",) if "numpoly" in _vias else ("numpoly.ndpoly",),
+              note=BOUNDS + PARTS[_part] + ("; explicit axis only" if (_fn, _part) == ("repeat", "elements") else "") + "; every argument list numpy "
+              f"accepts from a fixed grid (all axes, orders, permutations, sections/indices, offsets and k in -3..3, repeats/reps 0..3, scalar or "
+              f"per-element); spellings {'/'.join(_vias)}; thorough tier exhaustive over shape x arguments")(unary)
 
 
 # ------------------------------------------------------------------ several arrays in
@@ -275,9 +290,9 @@ check("C09", "choose.elements", gen_choose, functions=("numpoly.choose",),
       "range), wrap and clip (indices in -n-1..n+1); thorough exhaustive over shape pairs")(several)
 
 
-def gen_full(tier, rng):
-    targets = [list(s) for s in SHAPES + ZSHAPES] + [0, 1, 2, 3]
-    for _ in range(count(tier, 150, 1500)):
+def gen_full(tier, rng, zero=False):
+    targets = [list(s) for s in ZSHAPES] + [0] if zero else [list(s) for s in SHAPES] + [1, 2, 3]
+    for _ in range(count(tier, 40, 300) if zero else count(tier, 150, 1500)):
         lay, dt = rng.choice(LAYOUTS), rng.choice(["int64", "float64"])
         shape = rng.choice(targets)
         inp = {"fn": "full", "shape": shape, "layout": lay, "kw": rng.choice([{}, {}, {"order": "F"}, {"order": "C"}]), "via": "numpoly"}
@@ -285,7 +300,7 @@ def gen_full(tier, rng):
         if rng.random() < 0.5:
             ls = rng.choice(SHAPES)
             inp.update(fn="full_like", like=rpoly(rng, ls, lay, dtype=dt, names=rng.choice(NAMESETS)), via=rng.choice(NP2))
-            if rng.random() < 0.5:
+            if rng.random() < 0.5 or zero:
                 inp["kw"] = dict(inp["kw"], shape=shape)
             else:
                 tup = ls
@@ -293,9 +308,6 @@ def gen_full(tier, rng):
         yield dict(inp, fill=rpoly(rng, fs, lay, dtype=dt))
 
 
-@check("C09", "full.elements", gen_full, functions=("numpoly.full", "numpoly.full_like"),
-       note=BOUNDS + "full(shape, p) and full_like(a, p[, shape=]) for every target shape (also int shapes and extents 0), fill polynomial "
-            "0-d or an array broadcastable to the target, fill and prototype of the same coefficient dtype, order default/C/F; sampled")
 def full(inp):
     import numpoly
     install_poison()
@@ -308,6 +320,14 @@ def full(inp):
     else:
         want, r = numpy.full_like(ma, mf, **inp["kw"]), attempt((numpoly if inp["via"] == "numpoly" else numpy).full_like, a, f, **inp["kw"])
     return ok(r, want, f.names, a.dtype) or all_unchanged(before, [f, a])
+
+
+FULL = ("full(shape, p) and full_like(a, p[, shape=]), fill polynomial 0-d or an array broadcastable to the target, fill and prototype of the "
+        "same coefficient dtype, order default/C/F; sampled; ")
+check("C09", "full.elements", gen_full, functions=("numpoly.full", "numpoly.full_like"),
+      note=BOUNDS + FULL + "every target shape without an extent 0 (also int shapes)")(full)
+check("C09", "full.size0", lambda tier, rng: gen_full(tier, rng, True), functions=("numpoly.full", "numpoly.full_like"),
+      note=BOUNDS + FULL + "ONLY target shapes with an extent 0 (7 shapes and the int shape 0)")(full)
 
 
 # ------------------------------------------------------------------ indexing and iteration
@@ -327,9 +347,10 @@ def decode(idx):
     return out
 
 
-def gen_index(tier, rng):
-    for _ in range(count(tier, 400, 6000)):
-        s = rng.choice(SHAPES + ZSHAPES[:2] + ZSHAPES[4:5])
+def gen_index(tier, rng, zero=False):
+    made = 0
+    while made < (count(tier, 150, 2000) if zero else count(tier, 400, 6000)):
+        s = rng.choice(SHAPES + (ZSHAPES[:2] + ZSHAPES[4:5]) * 4 * zero)
         for _ in range(20):
             idx = [rng.choice(axis_items(n)) for n in s[: rng.randint(0, len(s))]]
             for extra in ("...", None, None):
@@ -339,17 +360,16 @@ def gen_index(tier, rng):
                 k = rng.randint(1, len(s))
                 idx = [{"b": nested(rng, s[:k], [True, False])}] + idx[k:]
             try:
-                numpy.empty(s, dtype=object)[tuple(decode(idx))]
+                res = numpy.empty(s, dtype=object)[tuple(decode(idx))]
                 break
             except Exception:
-                idx = []                          # numpy rejects this index: fall back to p[()]
-        lay = rng.choice(layouts(s))
+                idx, res = [], numpy.empty(s)     # numpy rejects this index: fall back to p[()]
+        if (0 in s or numpy.size(res) == 0) != zero:
+            continue
+        made, lay = made + 1, rng.choice(layouts(s))
         yield {"a": rpoly(rng, s, lay), "layout": lay, "index": idx, "bare": len(idx) == 1 and rng.random() < 0.7}
 
 
-@check("C09", "getitem.elements", gen_index, functions=("numpoly.ndpoly.__getitem__",),
-       note=BOUNDS + "plus shapes (0,), (2,0), (0,2); index tuples over ints (incl. negative), slices (incl. negative step, empty, out of range), "
-            "Ellipsis, newaxis, integer arrays / lists (1-d, 2-d, empty), boolean masks per axis and over leading axes; sampled among those numpy accepts")
 def getitem(inp):
     install_poison()
     x, m, bad = make(inp["a"], inp["layout"])
@@ -361,15 +381,20 @@ def getitem(inp):
     return ok(attempt(lambda: x[idx]), m[idx], x.names, x.dtype) or unchanged(before, x)
 
 
-def gen_iter(tier, rng):
-    for s in [s for s in SHAPES + ZSHAPES if s] * count(tier, 3, 30):
+INDEX = ("index tuples over ints (incl. negative), slices (incl. negative step, empty, out of range), Ellipsis, newaxis, integer arrays / lists "
+         "(1-d, 2-d, empty), boolean masks per axis and over leading axes; sampled among those numpy accepts; ")
+check("C09", "getitem.elements", gen_index, functions=("numpoly.ndpoly.__getitem__",),
+      note=BOUNDS + INDEX + "only non-empty operands and non-empty results")(getitem)
+check("C09", "getitem.size0", lambda tier, rng: gen_index(tier, rng, True), functions=("numpoly.ndpoly.__getitem__",),
+      note=BOUNDS + INDEX + "ONLY operands of shape (0,), (2,0), (0,2) or indices selecting nothing (result of size 0)")(getitem)
+
+
+def gen_iter(tier, rng, zero=False):
+    for s in [s for s in (ZSHAPES if zero else SHAPES) if s] * count(tier, 3, 30):
         lay = rng.choice(layouts(s))
         yield {"a": rpoly(rng, s, lay), "layout": lay, "how": rng.choice(["list", "for", "unpack", "flat"])}
 
 
-@check("C09", "iteration.elements", gen_iter, functions=("numpoly.ndpoly.__iter__", "numpoly.ndpoly.flat"),
-       note=BOUNDS + "every shape of 1-3 dimensions plus 7 shapes with an extent 0; list(p), for-loop, star-unpacking, p.flat: as many items as "
-            "numpy yields, item i is exactly element i")
 def iteration(inp):
     install_poison()
     x, m, bad = make(inp["a"], inp["layout"])
@@ -378,3 +403,10 @@ def iteration(inp):
     before = snapshot(x)
     walk = {"flat": lambda a: list(a.flat), "for": lambda a: [e for e in a], "unpack": lambda a: (lambda *e: list(e))(*a), "list": list}[inp["how"]]
     return ok(attempt(walk, x), walk(m), x.names, x.dtype, "items") or unchanged(before, x)
+
+
+ITER = "list(p), for-loop, star-unpacking, p.flat: as many items as numpy yields, item i is exactly element i; "
+check("C09", "iteration.elements", gen_iter, functions=("numpoly.ndpoly.__iter__", "numpoly.ndpoly.flat"),
+      note=BOUNDS + ITER + "every shape of 1-3 dimensions")(iteration)
+check("C09", "iteration.size0", lambda tier, rng: gen_iter(tier, rng, True), functions=("numpoly.ndpoly.__iter__", "numpoly.ndpoly.flat"),
+      note=BOUNDS + ITER + "ONLY the 7 shapes with an extent 0")(iteration)
